@@ -248,6 +248,7 @@ pub fn build(quick: bool) -> PropRun {
     // CRC re-fixed, constant fills) with the panic oracle: Client::step / Server::step hand every datagram to Frame::read
     crate::c16::FOR_C03.store(true, std::sync::atomic::Ordering::Relaxed);
     units.extend(crate::c16::parse_units(quick));
+    units.extend(crate::c14::loss_units(if quick { 6 } else { 8 }, true));
     // (f) the reassembly sweep of C04 (every arrival order, duplication and every fragment disagreeing with the first one seen) with the panic oracle
     crate::c04::FOR_C03.store(true, std::sync::atomic::Ordering::Relaxed);
     units.extend(crate::c04::receiver_units(quick));
@@ -260,6 +261,7 @@ pub fn build(quick: bool) -> PropRun {
 }
 
 pub fn replay_case_c03(case: &str) -> Vec<Violation> {
+    if case.starts_with("case:lossq:") { return crate::c14::loss_decode(case).map_or(vec![], |seq| match crate::c14::run_loss_seq(&seq).2 { Some(p) => vec![viol("C03.panic", format!("C03.panic:loss-intervals:{}", p.rsplit(" @ ").next().unwrap_or("")), p)], None => vec![] }); }
     if case.starts_with("case:frag:") { crate::c04::FOR_C03.store(true, std::sync::atomic::Ordering::Relaxed); return crate::c04::replay_case(case); }
     if case.starts_with("case:parse:") { crate::c16::FOR_C03.store(true, std::sync::atomic::Ordering::Relaxed); return crate::c16::replay_case(case); }
     crate::c14::replay_case_c03(case)
